@@ -1485,12 +1485,6 @@ class TLSConnection(TLSRecordLayer):
             signature_scheme = certificate_verify.signatureAlgorithm
             self.serverSigAlg = signature_scheme
 
-            signature_context = KeyExchange.calcVerifyBytes((3, 4),
-                                                            srv_cert_verify_hh,
-                                                            signature_scheme,
-                                                            None, None, None,
-                                                            prfName, b'server')
-
             for result in self._clientGetKeyFromChain(certificate, settings):
                 if result in (0, 1):
                     yield result
@@ -1544,6 +1538,11 @@ class TLSConnection(TLSRecordLayer):
                         "Server selected signature scheme we didn't "
                         "advertise or that is invalid for its certificate"):
                     yield result
+
+            signature_context = KeyExchange.calcVerifyBytes(
+                (3, 4), srv_cert_verify_hh,
+                certificate_verify.signatureAlgorithm,
+                None, None, None, prfName, b'server')
 
             if signature_scheme in (SignatureScheme.ed25519,
                                     SignatureScheme.ed448,
